@@ -144,7 +144,10 @@ def layer_error_variable(ctx, n):
                            # evaluated something else successfully
                            '${g(0)}<m metal:define-macro="mm%d">a ${f(1)}</m>' % case,
                            '<i tal:on-error="string:inner">${g(0)}${1/0}</i><m metal:define-macro="mm%d">\n ${f(1)}</m>' % case])
-        exc = rng.choice(['ZeroDivisionError', 'KeyError', 'CustomError', 'ValueError'])
+        # any Exception subclass is handled, whatever special treatment it gets elsewhere (RecursionError passes
+        # render() unwrapped, StopIteration ends iterations, MemoryError ...)
+        exc = rng.choice(['ZeroDivisionError', 'KeyError', 'CustomError', 'ValueError', 'RecursionError', 'StopIteration', 'MemoryError',
+                          'AssertionError', 'OSError', 'NotImplementedError', 'ImportError', 'EOFError', 'UnboundLocalError', 'StopAsyncIteration'])
         src = lead + '<div class="k" tal:on-error="string:T=${error.type.__name__};V=${type(error.value).__name__};L=${error.lineno};O=${error.offset}">before %s after</div>!' % site
         off = src.index('f(1)')
         line = src.count('\n', 0, off) + 1
@@ -165,6 +168,21 @@ def layer_error_variable(ctx, n):
             if out == lead + '<div class="k">T=%s;V=%s;L=;O=</div>!' % (exc, exc):
                 want = out
             calls = [c for c in calls if type(c).__name__ != 'ZeroDivisionError' or exc == 'ZeroDivisionError'][-1:]
+        if case % 6 == 0 and not in_macro:
+            # what is not an Exception is not handled: it leaves render() as it is, no fallback, no handler call
+            for base in (KeyboardInterrupt, SystemExit, GeneratorExit):
+                calls2 = []
+
+                def fb(i, base=base):
+                    raise base()
+                try:
+                    got = 'rendered %r' % PageTemplate(src, on_error_handler=calls2.append)(f=fb, g=lambda i: 'g')[:60]
+                except BaseException as e:      # noqa
+                    got = type(e).__name__ if not isinstance(e, Exception) else 'Exception subclass %s' % type(e).__name__
+                ctx.mon('non-exceptions-under-on-error')
+                if got != base.__name__ or calls2:
+                    ctx.violation('non-exception-handled-by-on-error', 'template %r, %s raised inside the element: %s, handler calls %r' % (
+                        src, base.__name__, got, calls2), {'kind': 'errvar', 'src': src})
         ctx.mon('error-variable-compared')
         ctx.case(key=('errvar', site[:12], exc, bool(lead)), nontrivial=True)
         if out != want or len(calls) != 1 or type(calls[0]).__name__ != exc:
